@@ -70,6 +70,8 @@ def cases(tier, seed):
         for scale in (1.0, 2.0):
             for picker in ("LoG", "DoG"):
                 out.append({"layout": lay, "scale": scale, "picker": picker, "dtype": "float32", "seed": seed, "img": [1, 24, 24]})
+    # a fine rotation search (343 rotations, more than a byte can index): particles planted at an early and at a late rotation
+    out.append({"family": "many-rotations", "ks": [40, 300, 342, 255, 256]})
     # call histories on one picker object: a pick must not depend on which images / scales the picker served before
     for picker in ("ZNCC-provider", "LoG", "DoG"):
         out.append({"family": "history", "picker": picker, "depth": 2 if tier == "quick" else 3})
@@ -174,6 +176,48 @@ def _match(picks, refs, tol):
 TBLOBS2 = [(1.0, (-1.8, 1.3, 0.9), 0.9), (0.9, (1.5, -1.4, -1.1), 0.9), (0.6, (1.6, 1.7, 1.2), 0.8)]  # no central blob: unlike TBLOBS
 
 
+def _run_many_rotations(case):
+    import dask
+    from scipy.spatial.transform import Rotation
+
+    from acryo import pick
+    from acryo._rotation import normalize_rotations
+
+    dask.config.set(scheduler="synchronous")
+    spec = ((30, 10), (30, 10), (30, 10))
+    quats = normalize_rotations(spec)
+    tm = data.particle_box(TEMPLATE_SHAPE, blobs=TBLOBS)
+    viol = []
+    shape = (24, 24, 24 * len(case["ks"]))
+    g = np.stack(np.meshgrid(*[np.arange(n, dtype=np.float64) for n in shape], indexing="ij"), -1)
+    img = np.zeros(shape)
+    planted = []
+    for i, k in enumerate(case["ks"]):
+        c = np.array([11.0, 12.0, 12.0 + 24 * i])
+        R = Rotation.from_quat(quats[k]).as_matrix()
+        img += data.particle((g - c) @ R, TBLOBS)
+        planted.append((c, k))
+    matcher = pick.ZNCCTemplateMatcher(tm, rotation=spec, order=1)
+    for kind in ("numpy", "dask:24"):
+        m = matcher.pick_molecules(_as_array(img.astype(np.float32), kind), 1.0, min_distance=3.0, min_score=0.6)
+        pos = np.asarray(m.pos, dtype=np.float64)
+        q = m.quaternion() if len(pos) else np.zeros((0, 4))
+        for c, k in planted:
+            near = [i for i in range(len(pos)) if np.abs(pos[i] - c).max() <= 1.0]
+            if len(near) != 1:
+                viol.append((f"{ID}|ZNCC[343 rotations]|{'particle-missed' if not near else 'duplicate-pick'}", f"{kind}: {len(near)} picks at the particle planted at {c.tolist()} with rotation #{k} of {len(quats)}"))
+                continue
+            ang = np.rad2deg((Rotation.from_quat(q[near[0]]).inv() * Rotation.from_quat(quats[k])).magnitude())
+            if ang > 15.0:
+                viol.append((f"{ID}|ZNCC[343 rotations]|wrong-rotation", f"{kind}: particle planted with rotation #{k} of {len(quats)} is reported {ang:.1f} degrees away (neighbouring search rotations are 10 degrees apart)"))
+        if len(pos) != len(planted):
+            viol.append((f"{ID}|ZNCC[343 rotations]|pick-count", f"{kind}: {len(pos)} picks for {len(planted)} particles"))
+    by = {}
+    for s_, m_ in viol:
+        by.setdefault(s_, m_)
+    return {"nontrivial": True, "outcome": f"many-rotations|{'viol' if viol else 'ok'}", "viol": list(by.items())}
+
+
 def _run_history(case):
     """one picker object serving several (image, scale) requests in every order; the template of the matcher is an
     ImageProvider whose image depends on the scale (another particle at scale 2), as a provider may"""
@@ -259,6 +303,8 @@ def run_case(case):
 
     if case.get("family") == "history":
         return _run_history(case)
+    if case.get("family") == "many-rotations":
+        return _run_many_rotations(case)
     dask.config.set(scheduler="synchronous")
     img, planted = _image(case)
     scale = case["scale"]
